@@ -6,12 +6,12 @@
 ROOT=$(dirname $(readlink -f $0))
 par=${1:-4}; filt=${2:-.}
 out=$ROOT/.work/seedreg; rm -rf $out; mkdir -p $out
-ls $ROOT/seeded | grep -E "^C[0-9]+-[a-z]$" | grep -E "$filt" | while read name; do
+ls $ROOT/seeded | grep -E "^[CF][0-9]+-[a-z]$" | grep -E "$filt" | while read name; do
   checks=$(python3 -c "import json;d=json.load(open('$ROOT/seeded/$name/meta.json'));p=d['property'];l=d['detected_by'];print(p if p in l else l[0])")
   echo "$name $checks"
 done > $out/plan.txt
 cat $out/plan.txt | xargs -P $par -L 1 bash -c '$0/seedtool.sh run $1 $2 > $0/.work/seedreg/$1.log 2>&1' $ROOT
-for f in $out/C*.log; do
+for f in $out/[CF]*.log; do
   n=$(basename $f .log)
   if grep -q "VIOLATION" $f; then r=caught; elif grep -q "patch does not apply" $f; then r="patch-does-not-apply"; elif grep -q "^OK" $f; then r=MISSED; else r="inconclusive"; fi
   echo "$n $(grep "^$n " $out/plan.txt | cut -d' ' -f2) $r"
